@@ -1009,22 +1009,28 @@ class ServiceDiscover:
     def _notify_service_offered(
         self, service: someip.config.Service, source: _T_SOCKADDR
     ) -> None:
-        for service_filter, listeners in self.watched_services.items():
+        # iterate over snapshots: a listener may (un)register listeners from its callback
+        for service_filter, listeners in list(self.watched_services.items()):
             if service_filter.matches_service(service):
-                for listener in listeners:
-                    listener.service_offered(service, source)
-        for listener in self.watcher_all_services:
-            listener.service_offered(service, source)
+                for listener in list(listeners):
+                    if listener in listeners:
+                        listener.service_offered(service, source)
+        for listener in list(self.watcher_all_services):
+            if listener in self.watcher_all_services:
+                listener.service_offered(service, source)
 
     def _notify_service_stopped(
         self, service: someip.config.Service, source: _T_SOCKADDR
     ) -> None:
-        for service_filter, listeners in self.watched_services.items():
+        # iterate over snapshots: a listener may (un)register listeners from its callback
+        for service_filter, listeners in list(self.watched_services.items()):
             if service_filter.matches_service(service):
-                for listener in listeners:
-                    listener.service_stopped(service, source)
-        for listener in self.watcher_all_services:
-            listener.service_stopped(service, source)
+                for listener in list(listeners):
+                    if listener in listeners:
+                        listener.service_stopped(service, source)
+        for listener in list(self.watcher_all_services):
+            if listener in self.watcher_all_services:
+                listener.service_stopped(service, source)
 
 
 @dataclasses.dataclass(frozen=True)
